@@ -108,15 +108,14 @@ func init() {
 		richContent = true
 		defer func() { richContent = false }()
 		done := 0
-		for tries := 0; done < cfg.N && tries < cfg.N*10; tries++ {
-			w, ops := genBWorld(r, false)
+		runWorld := func(w *BWorld, ops []BOp) bool {
 			target := filepath.Join(cfg.Work, fmt.Sprintf("rt%05d", done))
 			os.MkdirAll(target, 0755)
 			env := newEnv(w)
 			run := runBuild(w, ops, target, env)
 			if run.timeout || hasErrorDiag(run.results) || run.bundle == nil {
 				os.RemoveAll(target)
-				continue
+				return false
 			}
 			done++
 			c := &bCase{World: w, Ops: ops}
@@ -163,6 +162,20 @@ func init() {
 			}
 			chmodAll(target)
 			os.RemoveAll(target)
+			return true
+		}
+		// exact replay (-case): the recorded world and Add calls go first
+		if rc := loadReplayedBCase(cfg, rep, "bundle-roundtrip"); rc != nil {
+			rep.BeginReplay()
+			if !runWorld(rc.World, rc.Ops) {
+				rep.Replayed.Note = "the build of the recorded world fails on this tree (the lane only judges finished bundles)"
+			}
+			rep.EndReplay()
+			done = 0
+		}
+		for tries := 0; done < cfg.N && tries < cfg.N*10; tries++ {
+			w, ops := genBWorld(r, false)
+			runWorld(w, ops)
 		}
 	}
 }
